@@ -3,10 +3,12 @@ Executable model of the token module: modules/token/keeper/{keeper,token,fees,er
 msg_server,params}.go, types/{types,validation}.go, types/v1/{msgs,token,params}.go.
 
 The model follows the code as it is.  Notably
-* `EditToken` compares the new max supply with ⌊supply / 10^scale⌋ (F-tok-1);
-* `LossLessSwap` is the sequence of `LegacyDec` operations the code performs: two rounding
-  `Mul`s, `TruncateDec`, a give-back `outputFrac × 10^(si-so)` that ignores the ratio, and a
-  truncated burn (F-tok-2, F-tok-3, F-tok-4);
+* `EditToken` compares the new max supply with the circulating amount in min units
+  (`maxSupply · 10^scale < supply` is rejected; repaired by /repo 9de2d2d, was F-tok-1);
+* `LossLessSwap` is the exact-integer algorithm of /repo be84bab (was F-tok-2/3/4): one input
+  min unit is worth `num/den = ratio·10^so / (10^18·10^si)` output min units; the output is
+  `⌊input·num/den⌋`, the input taken is `⌈output·den/num⌉`, `(0, 0)` for a non-positive
+  input or ratio;
 * the issue fee uses `(ln len / ln 3)^4` printed with two decimals: a table over the symbol
   lengths 3..64 (compared with the real function by the harness on every run).
 
@@ -174,37 +176,28 @@ def feeFactor (len : Nat) : Option Dec :=
 
 /-! ### `LossLessSwap` (types/types.go) -/
 
-/-- `scaleMultipler` -/
-def scaleMul (si so : Nat) : Dec :=
-  if so ≤ si then Dec.withPrec 1 (si - so) else Dec.ofInt ((pow10 (so - si) : Nat) : Int)
+/-- value of one input min unit in output min units, numerator: `ratio.BigInt() · 10^so` -/
+def swapNum (ratio : Dec) (so : Nat) : Int := ratio.raw * ((pow10 so : Nat) : Int)
 
-/-- `scaleReverseMultipler` -/
-def scaleRev (si so : Nat) : Dec :=
-  if so ≤ si then Dec.ofInt ((pow10 (si - so) : Nat) : Int) else Dec.withPrec 1 (so - si)
+/-- … and denominator: `10^18 · 10^si` -/
+def swapDen (si : Nat) : Int := precision * ((pow10 si : Nat) : Int)
 
-/-- `outputDec = inputDec.Mul(scaleMultipler).Mul(ratio)` (both round half-even) -/
-def llOutput (input : Int) (ratio : Dec) (si so : Nat) : Option Dec :=
-  ((Dec.ofInt input).mul (scaleMul si so)).bind (fun d => d.mul ratio)
+/-- `output = ⌊input · num / den⌋` (`big.Int.Quo`) -/
+def swapOutput (input num den : Int) : Int := (input * num).tdiv den
 
-/-- the input actually taken: unchanged when the output is whole, otherwise
-`(inputDec - (outputDec - ⌊outputDec⌋).Mul(scaleReverseMultipler)).TruncateInt()` -/
-def llBurn (input : Int) (out rev : Dec) : Option Int :=
-  if out = out.truncateDec then some input
-  else ((out.sub out.truncateDec).bind (fun f => f.mul rev)).bind
-        (fun g => ((Dec.ofInt input).sub g).bind Dec.truncateInt)
+/-- `taken = ⌈output · den / num⌉`, computed as `(output·den + (num - 1)) Quo num` -/
+def swapTaken (output num den : Int) : Int := (output * den + (num - 1)).tdiv num
 
-/-- `LossLessSwap(input, ratio, inputScale, outputScale) = (burned, minted)`; `none` = panic -/
+/-- `LossLessSwap(input, ratio, inputScale, outputScale) = (taken, output)`; `none` = panic
+(`NewIntFromBigInt` beyond 256 bits) -/
 def lossLess (input : Int) (ratio : Dec) (si so : Nat) : Option (Int × Int) :=
-  if 18 < si - so ∨ 18 < so - si then none else
-  match llOutput input ratio si so with
+  if input ≤ 0 ∨ ratio.raw ≤ 0 then some (0, 0) else
+  match chkInt (swapTaken (swapOutput input (swapNum ratio so) (swapDen si)) (swapNum ratio so) (swapDen si)) with
   | none => none
-  | some out =>
-    match llBurn input out (scaleRev si so) with
+  | some b =>
+    match chkInt (swapOutput input (swapNum ratio so) (swapDen si)) with
     | none => none
-    | some b =>
-      match out.truncateDec.truncateInt with
-      | none => none
-      | some m => some (b, m)
+    | some m => some (b, m)
 
 /-! ### Lookups -/
 
@@ -353,8 +346,8 @@ def stepEdit (s : State) (owner symbol name : String) (max : Nat) (mintable : St
   | none => .error (.reject "token does not exist")
   | some t =>
     if owner ≠ t.owner then .error (.reject "not the owner") else
-    -- the comparison the code makes: new max against the *floored* main-unit supply
-    if 0 < max ∧ max < supplyOf s t.minUnit / pow10 t.scale then .error (.reject "max supply too low") else
+    -- the new maximum, in min units, must cover what circulates
+    if 0 < max ∧ max * pow10 t.scale < supplyOf s t.minUnit then .error (.reject "max supply too low") else
     .ok { s with tokens := AMap.set s.tokens symbol (edited t name max mintable) }
 
 /-- `Keeper.MintToken` after the fee was deducted -/
@@ -518,7 +511,8 @@ def stepEvmFault (s : State) (mode : String) : R :=
 /-- `Params.Validate` -/
 def paramsValid (p : Params) : Bool :=
   decide (0 ≤ p.taxRate.raw) && decide (p.taxRate.raw ≤ precision) &&
-  decide (0 ≤ p.mintRatio.raw) && decide (p.mintRatio.raw ≤ precision) && decide (0 ≤ p.feeAmt)
+  decide (0 ≤ p.mintRatio.raw) && decide (p.mintRatio.raw ≤ precision) && decide (0 ≤ p.feeAmt) &&
+  validDenom p.feeDenom
 
 def stepUpdateParams (s : State) (authority : String) (p : Params) : R :=
   if !(isAddr authority && paramsValid p) then .error (.reject "invalid message") else
